@@ -1,6 +1,7 @@
 (* C01 - Same Day, then 30-day, then Section 104.  Statements only. *)
-From Coq Require Import QArith Qcanon ZArith List Bool.
-Require Import CGT.Model.Num CGT.Model.Match CGT.Proofs.MatchFacts.
+From Coq Require Import QArith Qcanon ZArith List Bool Sorted.
+Require Import CGT.Model.Num CGT.Model.Match CGT.Proofs.NumFacts CGT.Proofs.MatchFacts CGT.Proofs.MatchInv
+               CGT.Proofs.MatchOrder CGT.Proofs.Examples.
 Import ListNotations.
 Open Scope Qc_scope.
 
@@ -11,4 +12,62 @@ Theorem C01_window_bnb : forall w offs d fut R rem cl l,
   lg_rule l = BnB /\ lg_sell l = dt d /\
   exists e, In e fut /\ lg_acq l = Some (dt e) /\ hasbuy e = true /\ (dt e - dt d <= w)%Z.
 Proof. exact bnb_legs. Qed.
+
+(* For every accepted date-sorted security ledger, the legs of each disposal on day z are:
+   at most one Same Day leg (acquisition date z), then 30-day legs whose acquisition dates e satisfy
+   0 < e - z <= window and strictly increase (earliest first), then at most one Section 104 leg. *)
+Theorem C01_order : forall w ds s, sorted_days ds -> run w ds = inr s ->
+  Forall (fun x : Z * list leg =>
+    exists sd bb pl, snd x = sd ++ bb ++ pl /\
+      (List.length sd <= 1)%nat /\
+      Forall (fun l => lg_rule l = SameDay /\ lg_acq l = Some (fst x) /\ lg_sell l = fst x) sd /\
+      Forall (fun l => lg_rule l = BnB /\ lg_sell l = fst x /\
+                       exists e, lg_acq l = Some e /\ (0 < e - fst x <= w)%Z) bb /\
+      StronglySorted (fun a b => (acq_z a < acq_z b)%Z) bb /\
+      (List.length pl <= 1)%nat /\
+      Forall (fun l => lg_rule l = S104 /\ lg_acq l = None /\ lg_sell l = fst x) pl)
+    (m_disp s).
+Proof. exact run_legs_shape. Qed.
+
+(* Same-day priority / claims disjoint: in every reachable state the shares claimed on a future
+   purchase day e by all earlier disposals together are at most bq e - min(bq e, sq e): what e's own
+   same-day disposal needs is never taken, and no share is claimed twice. *)
+Theorem C01_same_day_priority : forall s rest e, Inv s rest -> In e rest -> hasbuy e = true ->
+  0 <= claim_of (m_cl s) (dt e) /\ claim_of (m_cl s) (dt e) <= bq e - qmin (bq e) (qmax 0 (sq' e)).
+Proof. intros s rest e HI He Hb. destruct (inv_claims s rest HI e He) as [A _]. exact (A Hb). Qed.
+
+(* quantities and costs of the three kinds of leg *)
+Theorem C01_same_day_leg : forall offs d avail0, 0 < avail0 -> 0 < sq d ->
+  fst (fst (same_day_step offs d avail0)) =
+    [mk_leg d SameDay (qmin (sq d) avail0) (Some (dt d)) (qmin (sq d) avail0 * unit_cost offs d)].
+Proof.
+  intros offs d avail0 Ha Hs. unfold same_day_step.
+  destruct (qltb_spec 0 avail0) as [_|N]; [|contradiction].
+  destruct (qltb_spec 0 (sq d)) as [_|N]; [|contradiction]. reflexivity.
+Qed.
+Theorem C01_bnb_leg : forall offs d e R rem cl, hasbuy e = true -> 0 < free_of e cl ->
+  b_legs (bnb_step offs d e R rem cl) =
+    [mk_leg d BnB (qmin rem (free_of e cl / R)) (Some (dt e)) (qmin rem (free_of e cl / R) * R * unit_cost offs e)] /\
+  b_cl (bnb_step offs d e R rem cl) = (dt e, qmin rem (free_of e cl / R) * R) :: cl.
+Proof.
+  intros offs d e R rem cl Hb Hf. unfold bnb_step. rewrite Hb.
+  destruct (qltb_spec 0 (free_of e cl)) as [_|N]; [|contradiction]. cbn [andb b_legs b_cl]. split; reflexivity.
+Qed.
+Theorem C01_pool_leg : forall d s rem, 0 < rem -> m_pooled s = true -> m_pq s <> 0 -> sq d <> 0 ->
+  fst (fst (pool_step d s rem)) = [mk_leg d S104 (qmin rem (m_pq s)) None (qmin rem (m_pq s) * (m_pc s / m_pq s))].
+Proof.
+  intros d s rem Hr Hp Hq Hs. unfold pool_step. rewrite Hp.
+  destruct (qltb_spec 0 rem) as [_|N]; [|contradiction].
+  destruct (qeqb_spec (m_pq s) 0) as [E|_]; [contradiction|].
+  destruct (qeqb_spec (sq d) 0) as [E|_]; [contradiction|]. reflexivity.
+Qed.
+
+Example C01_witness : sorted_days ex1 /\ exists s, run 30 ex1 = inr s /\ List.length (m_disp s) = 3%nat.
+Proof. split; [exact ex1_sorted|]. destruct ex1_runs as (s & E & L & _). exists s. split; assumption. Qed.
+
 Print Assumptions C01_window_bnb.
+Print Assumptions C01_order.
+Print Assumptions C01_same_day_priority.
+Print Assumptions C01_same_day_leg.
+Print Assumptions C01_bnb_leg.
+Print Assumptions C01_pool_leg.
